@@ -1060,8 +1060,17 @@ enum filter_result mcount_entry_filter_check(struct mcount_thread_data *mtdp, un
 		}
 		if (tr->flags & TRIGGER_FL_TRACE_ON)
 			mcount_enabled = true;
-		if (tr->flags & TRIGGER_FL_TRACE_OFF)
+		if (tr->flags & TRIGGER_FL_TRACE_OFF) {
+			/*
+			 * The ENTRY records of the open functions are written lazily.
+			 * Write them now: the function that switches tracing off may be
+			 * filtered out itself (depth, ...) and then never reaches the
+			 * flush in mcount_entry_filter_record().
+			 */
+			if (mcount_enabled && mtdp->idx > 0)
+				record_trace_data(mtdp, &mtdp->rstack[mtdp->idx - 1], NULL);
 			mcount_enabled = false;
+		}
 
 		if (tr->flags & TRIGGER_FL_TIME_FILTER)
 			mtdp->filter.time = tr->time;
